@@ -53,6 +53,8 @@ inductive From where
   | cross (l r : From)
   | inner (l r : From) (on : Expr)
   | left (l r : From) (on : Expr)
+  | right (l r : From) (on : Expr)
+  | full (l r : From) (on : Expr)
   deriving Repr
 
 structure Group where
@@ -112,6 +114,8 @@ def From.width (db : Db) : From → Nat
   | .cross l r => l.width db + r.width db
   | .inner l r _ => l.width db + r.width db
   | .left l r _ => l.width db + r.width db
+  | .right l r _ => l.width db + r.width db
+  | .full l r _ => l.width db + r.width db
 
 /-- is the predicate value TRUE (the filter keeps exactly these rows) -/
 def isTrue (v : Value) : Except Err Bool := do
@@ -216,6 +220,28 @@ def From.eval (db : Db) : From → Except Err (List Row)
           let ms ← filterM' (fun row => do isTrue (← on.eval row)) (rs.map (fun b => a ++ b))
           pure (if ms.isEmpty then [a ++ List.replicate w Value.null] else ms)) ls
       pure perLeft.flatten
+  | .right l r on => do
+      -- every right row once per match, or once NULL-extended on the left (`nested_loop_right_outer_join`)
+      let ls ← l.eval db
+      let rs ← r.eval db
+      let w := l.width db
+      let perRight ← mapM' (fun b => do
+          let ms ← filterM' (fun row => do isTrue (← on.eval row)) (ls.map (fun a => a ++ b))
+          pure (if ms.isEmpty then [List.replicate w Value.null ++ b] else ms)) rs
+      pure perRight.flatten
+  | .full l r on => do
+      -- the LEFT JOIN rows, then the right rows without a match, NULL-extended on the left
+      let ls ← l.eval db
+      let rs ← r.eval db
+      let wl := l.width db
+      let wr := r.width db
+      let perLeft ← mapM' (fun a => do
+          let ms ← filterM' (fun row => do isTrue (← on.eval row)) (rs.map (fun b => a ++ b))
+          pure (if ms.isEmpty then [a ++ List.replicate wr Value.null] else ms)) ls
+      let lonely ← filterM' (fun b => do
+          let ms ← filterM' (fun row => do isTrue (← on.eval row)) (ls.map (fun a => a ++ b))
+          pure ms.isEmpty) rs
+      pure (perLeft.flatten ++ lonely.map (fun b => List.replicate wl Value.null ++ b))
 
 /-! ### grouping -/
 
